@@ -1197,14 +1197,28 @@ def rule_r10(chk, prog):
     for fn in ('is_arith_const', 'is_int_const'):
         ff = sm.func(fn)
         for c in ast.walk(ff):
+            pat = None
             if isinstance(c, ast.Call) and (call_name(c) or '').startswith(
                     're.') and c.args and isinstance(
                         c.args[0], ast.Constant) and isinstance(
                             c.args[0].value, str):
+                pat = c.args[0].value
+            elif isinstance(c, ast.Call) and isinstance(
+                    c.func, ast.Attribute) and c.func.attr in (
+                        'match', 'fullmatch', 'search') and isinstance(
+                            c.func.value, ast.Name) and len(sm.globals.get(
+                                c.func.value.id, [])) == 1:
+                d = sm.globals[c.func.value.id][0]
+                if isinstance(d, ast.Call) and call_name(
+                        d) == 're.compile' and d.args and isinstance(
+                            d.args[0], ast.Constant) and isinstance(
+                                d.args[0].value, str):
+                    pat = d.args[0].value
+            if pat is not None:
                 n += 1
                 chk.check('C03.R10', f'smtlib.{fn}', c,
-                          not _regex_admits(c.args[0].value, '-+'),
-                          f'the pattern {c.args[0].value!r} admits a sign: '
+                          not _regex_admits(pat, '-+'),
+                          f'the pattern {pat!r} admits a sign: '
                           'the constant mutators assume non-negative values',
                           loc=sm.loc(c), nontrivial=True)
     chk.floor('C03.R10', 'constant lexeme patterns', n, 2)
@@ -1265,15 +1279,18 @@ def rule_r10(chk, prog):
                   loc=sm.loc(r), nontrivial=True)
     # the integer proposals
     am = prog.mod('mutators_arithmetic')
-    mf = am.func('ArithmeticSimplifyConstant.mutations')
-    mdefs = single_defs(mf)
-    ints = {v for v, d in mdefs.items() if isinstance(d, ast.Call)
-            and call_name(d) == 'int'}
     ni = 0
-    for c in ast.walk(mf):
-        if not (isinstance(c, ast.Call) and call_name(c) == 'str'
-                and c.args):
+    sites = []
+    for q_, mf in am.funcs.items():
+        if not q_.startswith('ArithmeticSimplifyConstant.'):
             continue
+        mdefs = single_defs(mf)
+        ints_ = {v for v, d in mdefs.items() if isinstance(d, ast.Call)
+                 and call_name(d) == 'int'}
+        for c in ast.walk(mf):
+            if isinstance(c, ast.Call) and call_name(c) == 'str' and c.args:
+                sites.append((c, ints_))
+    for c, ints in sites:
         a = c.args[0]
         names = {x.id for x in ast.walk(a) if isinstance(x, ast.Name)}
         if not (names & ints) or isinstance(a, ast.Name):
